@@ -498,6 +498,7 @@ def run_impl(ctx, case, steps):
         kind = op[0]
         ctx.count(kind)
         before = snap_browser(br)
+        attrs0 = {name: id(val) for name, val in vars(br).items()}
         state = (enc.items(br.content), cz(enc.key(br.data_key)), enc.item(br.globals))
         dk = br.data_key
         new_br = None
@@ -603,6 +604,12 @@ def run_impl(ctx, case, steps):
         if snap_browser(br) != before:
             ctx.oracle_failure(f'{kind} modifies the browser it is called on :: {case}', case,
                                key='browser-modified')
+        attrs1 = {name: id(val) for name, val in vars(br).items()}
+        if attrs1 != attrs0:
+            diff = sorted(set(attrs0) ^ set(attrs1)) + sorted(k for k in attrs0 if k in attrs1 and attrs0[k] != attrs1[k])
+            ctx.oracle_failure(f'{kind} leaves new or re-bound instance attributes {diff} on the browser it is '
+                               f'called on (a selection is a pure read) :: {case}', case,
+                               key='browser-attributes-changed')
         if snap_dicts(inputs) != in_snap:
             ctx.oracle_failure(f'{kind} modifies the input dictionaries :: {case}', case,
                                key='inputs-modified')
@@ -714,6 +721,112 @@ def run_exhaustive(ctx, maxlen, stride, shards):
     return count, nlists
 
 
+# ---------------------------------------------------------------------------
+# two overlapping selections on ONE browser object (worker threads)
+
+class Probe:
+    '''a hashable value equal to `value`; the first time it is hashed (inside the selection running in the
+    worker thread) it tells the main thread and waits until the main thread has run another selection'''
+
+    def __init__(self, value, entered, resume):
+        self.value, self.entered, self.resume, self.armed = value, entered, resume, True
+
+    def __hash__(self):
+        if self.armed:
+            self.armed = False
+            self.entered.set()
+            self.resume.wait(5)
+        return hash(self.value)
+
+    def __eq__(self, other):
+        return self.value == (other.value if isinstance(other, Probe) else other)
+
+    def __repr__(self):
+        return repr(self.value)
+
+
+def selection_signature(br, sel, qvals=None):
+    kind, incl, excl, q = sel
+    kwargs = dict(q if qvals is None else qvals)
+    try:
+        if kind == 'filter':
+            out = br.filter_by(include=tuple(incl), exclude=tuple(excl), **kwargs)
+            return ['browser', repr(out.data_key), [repr(sorted(strip(it).items(), key=repr)) for it in out.content]]
+        out = br.select_by(include=tuple(incl), exclude=tuple(excl), **kwargs)
+        return ['item', repr(sorted(strip(out).items(), key=repr))]
+    except Exception as exc:  # noqa
+        return ['raise', type(exc).__name__]
+
+
+def run_concurrent(ctx, cases, nmax):
+    import threading
+    from valjean.eponine.browser import Browser
+    rng = ctx.rng
+    done = 0
+    for case in cases:
+        if done >= nmax:
+            break
+        reset_cache()
+        items = [dict((build(k), build(v)) for k, v in it) for it in case['items']]
+        dk = case['dk']
+        meta = [(k, v) for it in items for k, v in it.items()
+                if isinstance(k, str) and k not in (dk, 'index') and is_hashable(v)]
+        if len(items) < 2 or not meta:
+            continue
+        try:
+            br = Browser(items, data_key=dk)
+        except Exception:  # noqa
+            continue
+        keys = sorted({k for k, _ in meta})
+        allkeys = [['s', k] for k in keys] + [['s', dk], ['s', 'zz']]
+
+        def subset():
+            return [build(k) for k in rng.sample(allkeys, rng.choice([0, 1, 1, 2]))]
+
+        ka, va = rng.choice([m for m in meta if m[1] == m[1]] or meta)    # (a probe cannot stand for a NaN: identity)
+        if va != va:
+            continue
+        sel_a = [rng.choice(['filter', 'filter', 'select']), subset(), subset(), [(ka, va)]]
+        kb, vb = rng.choice(meta)
+        sel_b = [rng.choice(['filter', 'select']), subset(), subset(), [(kb, vb)] if rng.random() < 0.7 else []]
+        if (sel_a[1], sel_a[2]) == (sel_b[1], sel_b[2]):
+            sel_b[1] = [build(rng.choice(allkeys))] if not sel_b[1] else []
+        done += 1
+        rcase = {'concurrent': True, 'items': case['items'], 'dk': dk,
+                 'A': [sel_a[0], list(map(repr, sel_a[1])), list(map(repr, sel_a[2])), repr(sel_a[3])],
+                 'B': [sel_b[0], list(map(repr, sel_b[1])), list(map(repr, sel_b[2])), repr(sel_b[3])]}
+        seq_a, seq_b = selection_signature(br, sel_a), selection_signature(br, sel_b)
+        # the sequential answers are themselves checked against the direct scan
+        for sel, seq in ((sel_a, seq_a), (sel_b, seq_b)):
+            want = scan(br.content, dk, sel[1], sel[2], sel[3])
+            if sel[0] == 'filter' and (seq[0] != 'browser' or len(seq[2]) != len(want)):
+                ctx.oracle_failure(f'filter_by selects {seq}, a direct scan {len(want)} items :: {rcase}', rcase,
+                                   key='concurrent-sequential-control')
+        entered, resume = threading.Event(), threading.Event()
+        box = {}
+        qvals = [(ka, Probe(va, entered, resume))]
+        thread = threading.Thread(target=lambda: box.update(out=selection_signature(br, sel_a, qvals)), daemon=True)
+        attrs0 = {name: id(val) for name, val in vars(br).items()}
+        thread.start()
+        overlapped = entered.wait(2)
+        out_b = selection_signature(br, sel_b)
+        resume.set()
+        thread.join(10)
+        ctx.count('concurrent_pairs')
+        if overlapped:
+            ctx.count('concurrent_pairs_overlapped')
+        if thread.is_alive():
+            ctx.oracle_failure(f'a selection blocked by another one on the same browser :: {rcase}', rcase,
+                               key='concurrent-deadlock')
+            continue
+        if box.get('out') != seq_a or out_b != seq_b:
+            ctx.oracle_failure(f'two overlapping selections on one browser: A gives {box.get("out")} (alone: {seq_a}), '
+                               f'B gives {out_b} (alone: {seq_b}) :: {rcase}', rcase, key='concurrent-selections')
+        if {name: id(val) for name, val in vars(br).items()} != attrs0:
+            ctx.oracle_failure(f'selections leave new or re-bound instance attributes on the browser :: {rcase}',
+                               rcase, key='browser-attributes-changed')
+
+
 def coq_case(step):
     _case, zop, (cnt, dk, glob), res = step
     return f'({cnt}, {dk}, {glob}, {zop}, {res})'
@@ -730,12 +843,13 @@ def run(ctx):
                 'non-empty browsers; distinct by case content')
     rng = ctx.rng
     cases = [json.loads(json.dumps(c)) for c in CORPUS]
-    nrand = 1200 if ctx.tier == "quick" else 20000
+    nrand = 1000 if ctx.tier == "quick" else 20000
     cases += [gen_case(rng) for _ in range(nrand)]
     steps = []
     for case in cases:
         nontrivial = run_impl(ctx, case, steps)
         ctx.case_seen(case, nontrivial, sample_every=997)
+    run_concurrent(ctx, cases, 200 if ctx.tier == 'quick' else 5000)
     shard_size = 400
     shards = []
     for k in range(0, len(steps), shard_size):
